@@ -94,6 +94,11 @@ def witness_cases():
         # F14e: retryDelay rescaled by every AddJob, including Start's
         case([op("create", ds=1), op("create", ds=2), op("addjob", job=0, src=1, sink=2, paused=False, delay=5), R, R,
               op("pause", job=0), R]),
+        # unregistering a client that holds ACLs (RegisterClient with Deleted: true), no later ACL write, restart,
+        # then the same id registered again: the ACL must stay gone (all subjects are listed, registered or not)
+        case([op("reg", c="a"), op("setacl", c="a", acl=[2]), op("reg", c="b"), op("setacl", c="b", acl=[4, 9]),
+              op("unreg", c="a"), R, op("reg", c="a"), R, op("unreg", c="b"), op("reg", c="c"), R]),
+        case([op("setacl", c="c", acl=[6]), op("reg", c="c"), op("unreg", c="c"), R, op("reg", c="c"), op("setacl", c="b", acl=[1]), R]),
         # everything else survives
         case([op("create", ds=1), op("create", ds=2, pub=[1]), op("w", ds=1, es=[[1, 10, -1, 0], [2, 11, 1, 0]]),
               op("addjob", job=0, src=1, sink=2, paused=False, delay=0), op("run", job=0), op("pause", job=0),
@@ -112,10 +117,11 @@ def gen_history(rng, n, mode):
     ops = []
     have_ds = set()
     have_job = set()
+    have_acl = set()
     fs_open = {}
     weights = [("create", 5), ("w", 9), ("delete", 2), ("rename", 2), ("pubns", 2), ("fs", 4),
                ("addjob", 4), ("pause", 2), ("resume", 2), ("deljob", 1), ("run", 5),
-               ("reg", 3), ("unreg", 1), ("setacl", 4), ("delacl", 2), ("addprov", 3), ("delprov", 2)]
+               ("reg", 3), ("unreg", 3), ("setacl", 4), ("delacl", 2), ("addprov", 3), ("delprov", 2)]
     total = sum(w for _, w in weights)
 
     def pick():
@@ -184,9 +190,14 @@ def gen_history(rng, n, mode):
             if k == "deljob":
                 have_job.discard(j)
         elif k in ("reg", "unreg", "delacl"):
-            ops.append(op(k, c=rng.choice(CLIENTS)))
+            c = rng.choice(sorted(have_acl)) if (k != "reg" and have_acl and rng.chance(3, 4)) else rng.choice(CLIENTS)
+            ops.append(op(k, c=c))
+            if k != "reg":
+                have_acl.discard(c)
         elif k == "setacl":
-            ops.append(op("setacl", c=rng.choice(CLIENTS), acl=[rng.below(16) for _ in range(rng.range(0, 3))]))
+            c = rng.choice(CLIENTS)
+            ops.append(op("setacl", c=c, acl=[rng.below(16) for _ in range(rng.range(0, 3))]))
+            have_acl.add(c)
         elif k == "addprov":
             ops.append(op("addprov", name=PROV_NAMES[rng.choice([0, 1, 10, 11])], user="u%d" % rng.range(1, 3)))
         elif k == "delprov":
